@@ -88,6 +88,9 @@ def gen_config(rng, profile="any", tier="quick"):
         if all(e is None or e > end for e in entries.values()) and rng.random() < 0.8:
             entries[assets[0]] = start
     cfg["universe"] = {"kind": "dynamic", "entries": entries} if dynamic else {"kind": "static", "assets": list(assets)}
+    if dynamic and rng.random() < 0.3:
+        # the same instants, written down in other time zones (tz-aware timestamps are legal entry dates)
+        cfg["universe"]["tz"] = dict((a, rng.choice(["US/Eastern", "Asia/Tokyo", "Europe/London", "UTC"])) for a in assets)
     # ---- market ---------------------------------------------------------------------------
     faults = []
     if rng.random() < 0.4:
@@ -467,7 +470,9 @@ def build_session(cfg, dirpath, shared_source=None):
     if u["kind"] == "static":
         universe = StaticUniverse(list(u["assets"]))
     else:
-        universe = DynamicUniverse(dict((a, (ts(e) if e is not None else None)) for a, e in u["entries"].items()))
+        tzs = u.get("tz") or {}
+        universe = DynamicUniverse(dict((a, ((ts(e).tz_convert(tzs[a]) if tzs.get(a) else ts(e)) if e is not None else None))
+                                        for a, e in u["entries"].items()))
     data_handler = None
     if shared_source is not None:
         data_handler = BacktestDataHandler(universe, data_sources=[shared_source])
@@ -536,6 +541,8 @@ class _UuidSeam(object):
 
 def run_session(cfg, market, monitors=True, dirpath=None, shared_source=None, hooks=None, uuid_seed=0):
     """Run one real backtest.  Returns an Outcome with everything the oracles look at."""
+    import gc
+    gc.collect()        # whatever an earlier, already dropped session left behind is reclaimed now, not "sometime"
     from qstrader.execution import order as _order_mod
     real_uuid = _order_mod.uuid
     _order_mod.uuid = _UuidSeam(real_uuid, uuid_seed)
@@ -543,6 +550,10 @@ def run_session(cfg, market, monitors=True, dirpath=None, shared_source=None, ho
         return _run_session(cfg, market, monitors, dirpath, shared_source, hooks)
     finally:
         _order_mod.uuid = real_uuid
+        # collection timing of the cyclic garbage a session leaves behind would otherwise depend on the
+        # allocation history of the process: collect at a fixed point so that a run is a function of its plan
+        import gc
+        gc.collect()
 
 
 def _run_session(cfg, market, monitors, dirpath, shared_source, hooks):
